@@ -19,7 +19,7 @@
 (* the outcome it demands) and trace validation (Run folds Step over a     *)
 (* recorded line and the recorded outcome must equal Outcome).             *)
 (***************************************************************************)
-EXTENDS Naturals, Sequences, FiniteSets, TLC, SequencesExt
+EXTENDS Integers, Sequences, FiniteSets, TLC, SequencesExt
 
 RangeOf(s) == {s[i] : i \in DOMAIN s}
 
@@ -63,7 +63,10 @@ ShortsOfKind(d, isArg) == UNION {UNION {RangeOf(l.named[k].shorts) : k \in {k \i
 Ambiguous(d) == ShortsOfKind(d, TRUE) \cap ShortsOfKind(d, FALSE)
 InitSt(def) == [frames |-> <<NewFrame(def)>>, path |-> <<>>, pending |-> "", posOnly |-> FALSE,
                 frozen |-> FALSE, dead |-> "", helpAt |-> NONE, verAt |-> NONE, outside |-> FALSE,
-                amb |-> Ambiguous(def), ambig |-> FALSE]
+                amb |-> Ambiguous(def), ambig |-> FALSE,
+                \* `cargo_helper(name, ..)`: the name of the cargo subcommand may lead the line ("fresh": nothing typed yet,
+                \* "skipped": it did and was dropped, "no": the line began with something else)
+                cargo |-> "fresh"]
 
 Cur(st)       == st.frames[Len(st.frames)]
 SetCur(st, f) == [st EXCEPT !.frames[Len(st.frames)] = f]
@@ -163,8 +166,14 @@ Plain(st, e) ==
     [] e.t = "word"   -> StepWord(st, e.s)
 
 \* the user types one more item (one OS string)
-Step(st, e) ==
-  IF st.ambig THEN st                        \* tokenising stopped at the ambiguous item
+CargoName(st) == IF "cargo" \in DOMAIN st.frames[1].lvl THEN st.frames[1].lvl.cargo ELSE ""
+Step(st0, e) ==
+  \* (the `--` marker is not an item: the word after a leading `--` is still the first one)
+  LET st == [st0 EXCEPT !.cargo = IF @ = "fresh" /\ (st0.posOnly \/ e.t # "dd") THEN "no" ELSE @] IN
+  IF st0.ambig THEN st                        \* tokenising stopped at the ambiguous item
+  \* the very first item, when it is the cargo subcommand's name, is dropped
+  ELSE IF st0.cargo = "fresh" /\ CargoName(st0) # "" /\ (st0.posOnly \/ e.t = "word") /\ e.txt = CargoName(st0)
+       THEN [st0 EXCEPT !.cargo = "skipped"]
   ELSE IF st.posOnly THEN PushPos(st, e.txt, TRUE)
   ELSE IF st.pending # ""
        THEN IF e.t = "word" THEN FeedArg([st EXCEPT !.pending = ""], st.pending, e.s)
@@ -255,6 +264,18 @@ AssignPos(ps, ws, vals) ==
        ELSE IF p.arity = "some" /\ r.got = <<>> THEN [ok |-> FALSE, why |-> [k |-> "missing", id |-> p.id]]
        ELSE AssignPos(Tail(ps), r.rest, Append(vals, r.got))
 
+\* batteries: two neighbouring repeated flags read as ONE number, offset + #first - #second kept within [min, max]
+\* (`verbose_and_quiet_by_number`), or as that number's entry of a table (`verbose_by_slice`: the index is the value here)
+HasBattery(it) == "battery" \in DOMAIN it /\ it.battery.k \in {"vq", "slice"}
+Clamp(x, lo, hi) == IF x < lo THEN lo ELSE IF x > hi THEN hi ELSE x
+RECURSIVE Batteries(_, _, _)
+Batteries(named, vals, j) ==
+  IF j > Len(named) THEN <<>>
+  ELSE IF HasBattery(named[j])
+       THEN <<Clamp(named[j].battery.offset + Len(vals[j]) - Len(vals[j + 1]), named[j].battery.min, named[j].battery.max)>>
+            \o Batteries(named, vals, j + 2)
+       ELSE <<vals[j]>> \o Batteries(named, vals, j + 1)
+
 \* fields in declaration order; the first failing field decides (its reason is reported)
 RECURSIVE FrameVal(_, _, _)
 FrameVal(frames, k, envv) ==
@@ -262,7 +283,7 @@ FrameVal(frames, k, envv) ==
       nv == [j \in DOMAIN f.lvl.named |-> NamedVal(f, f.lvl.named[j], envv)]
       badn == {j \in DOMAIN nv : ~nv[j].ok} IN
   IF badn # {} THEN [ok |-> FALSE, why |-> nv[CHOOSE j \in badn : \A i \in badn : j <= i].why @@ [f |-> k]]
-  ELSE LET base == [j \in DOMAIN nv |-> nv[j].v] IN
+  ELSE LET base == Batteries(f.lvl.named, [j \in DOMAIN nv |-> nv[j].v], 1) IN
     CASE f.lvl.tail.kind = "none" -> IF f.pos = <<>> THEN [ok |-> TRUE, v |-> [t |-> base]]
                                       ELSE [ok |-> FALSE, why |-> [k |-> "surplus"]]
       [] f.lvl.tail.kind = "pos"  -> LET r == AssignPos(f.lvl.tail.items, f.pos, <<>>) IN
@@ -294,7 +315,7 @@ Outcome(st, envv) ==
   ELSE IF st.dead # "" THEN [class |-> "stderr", why |-> [k |-> st.dead]]
   ELSE IF st.pending # "" THEN [class |-> "stderr", why |-> [k |-> "noarg"]]
   ELSE LET n == Len(st.frames)  f == st.frames[n]
-           empty == f.pos = <<>> /\ \A i \in DOMAIN f.acc : f.acc[i] = <<>> IN
+           empty == f.pos = <<>> /\ (\A i \in DOMAIN f.acc : f.acc[i] = <<>>) /\ ~(n = 1 /\ st.cargo = "skipped") IN
        \* fallback_to_usage: a level that was given no arguments at all and cannot succeed on
        \* nothing prints its help instead of failing
        IF f.lvl.ftu /\ empty /\ ~FrameVal(st.frames, n, envv).ok
@@ -395,8 +416,10 @@ NoResurrection == [][(st.dead # "" \/ st.ambig) => Outcome(st', env).class # "ok
 \* C09: after `--` everything is positional data at the level where it was typed
 DashDash == [][(st.posOnly /\ ~st.ambig) => /\ st'.posOnly /\ st'.path = st.path /\ st'.helpAt = st.helpAt
                              /\ st'.verAt = st.verAt /\ st'.dead = st.dead
-                             /\ Len(Cur(st').pos) = Len(Cur(st).pos) + 1
-                             /\ Cur(st').pos[Len(Cur(st').pos)].after]_vars
+                             \* (the positional parser that takes it may be the cargo subcommand's name, a `literal`)
+                             /\ \/ st.cargo = "fresh" /\ st'.cargo = "skipped" /\ Cur(st').pos = Cur(st).pos
+                                \/ /\ Len(Cur(st').pos) = Len(Cur(st).pos) + 1
+                                   /\ Cur(st').pos[Len(Cur(st').pos)].after]_vars
 \* C08: entering a subcommand never changes what enclosing levels collected
 ScopeAfterCommand == [][\A k \in 1..Len(st.frames) - 1 :
                            st'.frames[k].acc = st.frames[k].acc /\ st'.frames[k].pos = st.frames[k].pos]_vars
@@ -409,7 +432,7 @@ Accounted(s) ==
             Len(s.frames[k].pos)
             + SumOver([i \in DOMAIN s.frames[k].acc |-> Len(s.frames[k].acc[i])], DOMAIN s.frames[k].acc)],
           DOMAIN s.frames)
-  + Len(s.path) + (IF s.posOnly THEN 1 ELSE 0)
+  + Len(s.path) + (IF s.posOnly THEN 1 ELSE 0) + (IF s.cargo = "skipped" THEN 1 ELSE 0)
 Held(s) == Accounted(s) + (IF s.pending # "" THEN 1 ELSE 0)
 \* (the help / version letters of a cluster are requests, not occurrences)
 Entries(e) == IF e.t = "cluster" THEN Len(SelectSeq(e.ss, LAMBDA n : n \notin {"-h", "-V"})) + (IF e.last = "" THEN 0 ELSE 1) ELSE 1
